@@ -26,9 +26,11 @@ func PathsOf(keys []string, frombit int32, height int32, dedup bool) []uint64 {
 	l := len(keys)
 	rst := make([]uint64, 0, l)
 	prev := ^uint64(0)
-	for _, s := range keys {
+	for i, s := range keys {
 		p := PathOf(s, frombit, height)
-		if !dedup || p != prev {
+		// the first path has no predecessor: prev is only a placeholder then
+		// (^uint64(0) is itself a path: 32 ones at height 32)
+		if !dedup || i == 0 || p != prev {
 			rst = append(rst, p)
 		}
 		prev = p
